@@ -62,7 +62,9 @@ class C16(framework.PropertyCheck):
         if r.random() < 0.3:
             # a user macro that looks at its operands as they were written (library macro call, foldable arithmetic)
             extra += ["(define xs9 '(1 2 3))", "(defmacro q9 [e] `',e)", '(print (q9 (sum xs9)) (q9 (+ 1 2)))',
-                      "(defmacro len9 [e] (length e))", '(print (len9 (when 1 2 3)))']
+                      "(defmacro len9 [e] (length e))", '(print (len9 (when 1 2 3)))',
+                      # ... and again several forms after the last definition of a macro
+                      '(define a8 2)', '(print "gap")', '(print (q9 (* a8 (+ 2 3))) (len9 (unless 1 2)))']
         elif r.random() < 0.3:
             # the same with the macro defined in a nested position (include guard, do block)
             extra += [r.choice(["(unless (defined? 'show9) (defmacro show9 [e] `(list ',e ,e)))", "(do (define g9 1) (defmacro show9 [e] `(list ',e ,e)))",
